@@ -22,6 +22,14 @@ def sh(cmd, cwd=None, timeout=3600):
 
 def place_demo(wt, demo_src, ident):
     text = open(demo_src).read()
+    ap = re.search(r"APPEND this file to (src/[\w/]+\.rs)", text)
+    if ap:
+        # append-style unit-test demo for a crate-private layer
+        host = os.path.join(wt, ap.group(1))
+        with open(host, "a") as f:
+            f.write("\n" + text)
+        name = re.search(r"^mod (\w+)", text, re.M).group(1)
+        return ap.group(1) + "#appended", "cargo test --offline --lib %s -- --test-threads=1" % name
     m = re.search(r"copy this file to\s+`?(?:<worktree>/)?(src/[\w/]+\.rs|tests/[\w/]+\.rs)`?", text) or re.search(r"[Pp]lace this file at\s+(tests/[\w/]+\.rs)", text)
     rel = m.group(1) if m else "tests/demo_%s.rs" % ident.lower().replace("/", "_")
     dst = os.path.join(wt, rel)
@@ -81,7 +89,8 @@ def main():
         rc1, out1 = sh(test_cmd, cwd=wt)
         meta["demo_with_patch"] = "fail" if rc1 != 0 else "PASS"
         # baseline with the patch (demo removed so that only the 85 are counted)
-        os.remove(os.path.join(wt, rel))
+        if not rel.endswith("#appended"):
+            os.remove(os.path.join(wt, rel))
         if rel.startswith("src/"):
             sh("git checkout -- src", cwd=wt)
             sh("git apply %s %s" % ("--3way" if three_way else "", patch), cwd=wt)
